@@ -181,7 +181,7 @@ func buildEdDSAKeygen(n, t int, o kgOpts) *runCtx {
 	for i, pid := range pids {
 		node, out := newNode(fmt.Sprintf("N%d", i), 'N', i, pid)
 		end := make(chan *eddsakeygen.LocalPartySaveData, 8)
-		params := tss.NewParameters(tss.Edwards(), ctx, pid, n, t+cfgDelta(fmt.Sprintf("N%d", i)))
+		params := tss.NewParameters(tss.Edwards(), ctx, ownID(pid), n, t+cfgDelta(fmt.Sprintf("N%d", i)))
 		var pk, pr []byte
 		if o.ui != nil {
 			pk = beN(o.ui[i], 32)
@@ -225,7 +225,10 @@ func buildECDSAKeygen(n, t int, o kgOpts) *runCtx {
 	for i, pid := range pids {
 		node, out := newNode(fmt.Sprintf("N%d", i), 'N', i, pid)
 		end := make(chan *ecdsakeygen.LocalPartySaveData, 8)
-		params := tss.NewParameters(curveOr(o.ec), ctx, pid, n, t+cfgDelta(fmt.Sprintf("N%d", i)))
+		params := tss.NewParameters(curveOr(o.ec), ctx, ownID(pid), n, t+cfgDelta(fmt.Sprintf("N%d", i)))
+		if cfgConcurrency > 0 {
+			params.SetConcurrency(cfgConcurrency)
+		}
 		if o.noProofMod {
 			params.SetNoProofMod()
 		}
@@ -294,7 +297,7 @@ func buildECDSASign(keys []ecdsakeygen.LocalPartySaveData, pids tss.SortedPartyI
 	for i, pid := range pids {
 		node, out := newNode(fmt.Sprintf("N%d", i), 'N', i, pid)
 		end := make(chan *common.SignatureData, 8)
-		params := tss.NewParameters(curveOr(o.ec), ctx, pid, len(pids), t)
+		params := tss.NewParameters(curveOr(o.ec), ctx, ownID(pid), len(pids), t)
 		var pr []byte
 		if o.first != nil {
 			for _, c := range o.first[i] {
@@ -323,7 +326,7 @@ func buildEdDSASign(keys []eddsakeygen.LocalPartySaveData, pids tss.SortedPartyI
 	for i, pid := range pids {
 		node, out := newNode(fmt.Sprintf("N%d", i), 'N', i, pid)
 		end := make(chan *common.SignatureData, 8)
-		params := tss.NewParameters(tss.Edwards(), ctx, pid, len(pids), t)
+		params := tss.NewParameters(tss.Edwards(), ctx, ownID(pid), len(pids), t)
 		var pr []byte
 		if o.first != nil {
 			for _, c := range o.first[i] {
@@ -380,7 +383,7 @@ func buildEdDSAReshareOpt(oldKeys []eddsakeygen.LocalPartySaveData, oldPIDs tss.
 	for i, pid := range oldPIDs {
 		node, out := newNode(fmt.Sprintf("O%d", i), 'O', i, pid)
 		end := make(chan *eddsakeygen.LocalPartySaveData, 8)
-		params := tss.NewReSharingParameters(tss.Edwards(), oldCtx, newCtx, pid, keyN, oldT, len(newPIDs), o.newT+cfgDelta(fmt.Sprintf("O%d", i)))
+		params := tss.NewReSharingParameters(tss.Edwards(), oldCtx, newCtx, ownID(pid), keyN, oldT, len(newPIDs), o.newT+cfgDelta(fmt.Sprintf("O%d", i)))
 		var pr []byte
 		if o.coefs != nil {
 			for _, c := range o.coefs[i] {
@@ -399,7 +402,7 @@ func buildEdDSAReshareOpt(oldKeys []eddsakeygen.LocalPartySaveData, oldPIDs tss.
 	for i, pid := range newPIDs {
 		node, out := newNode(fmt.Sprintf("N%d", i), 'N', i, pid)
 		end := make(chan *eddsakeygen.LocalPartySaveData, 8)
-		params := tss.NewReSharingParameters(tss.Edwards(), oldCtx, newCtx, pid, keyN, oldT, len(newPIDs), o.newT+cfgDelta(fmt.Sprintf("N%d", i)))
+		params := tss.NewReSharingParameters(tss.Edwards(), oldCtx, newCtx, ownID(pid), keyN, oldT, len(newPIDs), o.newT+cfgDelta(fmt.Sprintf("N%d", i)))
 		params.SetRand(newDetRand(fmt.Sprintf("%s-n-%d", o.seed, i)))
 		save := eddsakeygen.NewLocalPartySaveData(len(newPIDs))
 		node.Party = eddsareshare.NewLocalParty(params, save, out, end)
@@ -436,7 +439,10 @@ func buildECDSAReshareOpt(oldKeys []ecdsakeygen.LocalPartySaveData, oldPIDs tss.
 	for i, pid := range oldPIDs {
 		node, out := newNode(fmt.Sprintf("O%d", i), 'O', i, pid)
 		end := make(chan *ecdsakeygen.LocalPartySaveData, 8)
-		params := tss.NewReSharingParameters(curveOr(o.ec), oldCtx, newCtx, pid, keyN, oldT, len(newPIDs), o.newT+cfgDelta(fmt.Sprintf("O%d", i)))
+		params := tss.NewReSharingParameters(curveOr(o.ec), oldCtx, newCtx, ownID(pid), keyN, oldT, len(newPIDs), o.newT+cfgDelta(fmt.Sprintf("O%d", i)))
+		if cfgConcurrency > 0 {
+			params.SetConcurrency(cfgConcurrency)
+		}
 		if o.noProofs {
 			params.SetNoProofMod()
 			params.SetNoProofFac()
@@ -459,7 +465,10 @@ func buildECDSAReshareOpt(oldKeys []ecdsakeygen.LocalPartySaveData, oldPIDs tss.
 	for i, pid := range newPIDs {
 		node, out := newNode(fmt.Sprintf("N%d", i), 'N', i, pid)
 		end := make(chan *ecdsakeygen.LocalPartySaveData, 8)
-		params := tss.NewReSharingParameters(curveOr(o.ec), oldCtx, newCtx, pid, keyN, oldT, len(newPIDs), o.newT+cfgDelta(fmt.Sprintf("N%d", i)))
+		params := tss.NewReSharingParameters(curveOr(o.ec), oldCtx, newCtx, ownID(pid), keyN, oldT, len(newPIDs), o.newT+cfgDelta(fmt.Sprintf("N%d", i)))
+		if cfgConcurrency > 0 {
+			params.SetConcurrency(cfgConcurrency)
+		}
 		if o.noProofs {
 			params.SetNoProofMod()
 			params.SetNoProofFac()
@@ -480,9 +489,22 @@ func buildECDSAReshareOpt(oldKeys []ecdsakeygen.LocalPartySaveData, oldPIDs tss.
 var cfgDeviator string
 var cfgThresholdDelta int
 
+// cfgConcurrency > 0: every party of the next ECDSA keygen / resharing build is configured with tss.Parameters.SetConcurrency
+// (the number of proof verifications a party runs at a time; the library default is the number of CPUs)
+var cfgConcurrency int
+
 func cfgDelta(name string) int {
 	if name == cfgDeviator {
 		return cfgThresholdDelta
 	}
 	return 0
+}
+
+
+// ownID: a node builds its own identity itself (from its configuration or a stored file): an object equal to, but distinct from,
+// the entry of the committee list it was given. Every party of every run is configured this way.
+func ownID(p *tss.PartyID) *tss.PartyID {
+	q := tss.NewPartyID(p.Id, p.Moniker, p.KeyInt())
+	q.Index = p.Index
+	return q
 }
